@@ -161,7 +161,7 @@ def gen_e2e(rng):
         pz = rng.choice([0.0, 0.0, 0.15, 0.35])
         seq = [0 if rng.random() < pz else rng.randint(1, rng.choice([1, 2, 4])) for _ in range(rng.randint(1, 6))]
     api = rng.choice(["generate_data", "generate"])
-    tn = rng.choice([TABLE, TABLE, "Tab", "LineItem", "Line_Item", "tEAM", "order"])
+    tn = rng.choice([TABLE, TABLE, "Tab", "LineItem", "Line_Item", "tEAM", "order", "2024", "7"])
     case = gen_e2e_named(rng, shape, seq, api, tn)
     if tn != TABLE:
         case["tname"] = tn
@@ -331,6 +331,8 @@ def recipe_text(case, with_old_table=False):
     """Every template carries a nickname (mk, tn, pn, en[, xn]): a nickname is not a table."""
     shape, seq = case["shape"], case["seq"]
     T = _tname(case)
+    if T.isdigit():          # a table may be called "2024": written quoted, it is a string
+        T = '"%s"' % T
     expr = "${{ %s[(M.id - 1) %% %d] }}" % (str(list(seq)), len(seq))
     if shape == "top":
         body = f"- object: {T}\n  nickname: tn\n  count: {expr}\n"
@@ -433,7 +435,7 @@ def _run_direct(case):
     return {"outcome": ["exhausted", j], "via": via}
 
 
-_LINE = re.compile(r"^([A-Za-z_]\w*)\(")
+_LINE = re.compile(r"^(\w+)\(")
 
 
 def _run_e2e(case):
